@@ -39,3 +39,11 @@ Theorem C16_large_limit : forall (l : list (N * bytes)) off lim, (length l <= N.
   slice off lim l = slice off 0 l.
 Proof. exact (@slice_large (N * bytes)). Qed.
 Print Assumptions C16_large_limit.
+
+(* the same about the listing operation: the answers to pages 0, 1, 2, ... of one positive limit, concatenated, are
+   the full filtered listing — every matching document once, none missing *)
+Theorem C16_listing_pages_cover : forall s flt lim n full, listing s flt 0 0 = Ok full -> 0 < lim ->
+  (length full <= n * N.to_nat lim)%nat ->
+  concat (map (fun i => match listing s flt (N.of_nat i * lim) lim with Ok p => p | _ => nil end) (seq 0 n)) = full.
+Proof. exact listing_pages_cover. Qed.
+Print Assumptions C16_listing_pages_cover.
